@@ -18,6 +18,9 @@ pub enum Action {
     TruncateHalf,
     Garbage,
     BitFlip(u64),
+    /// One flipped bit in the (uncompressed) JSON text of a hunk, head or tail, chosen so that
+    /// the file still decodes: the damage no checksum catches.
+    JsonFlip(u64),
 }
 
 impl Action {
@@ -28,6 +31,7 @@ impl Action {
             Action::TruncateHalf => "truncate-half".into(),
             Action::Garbage => "garbage".into(),
             Action::BitFlip(n) => format!("bitflip{n}"),
+            Action::JsonFlip(n) => format!("jsonflip{n}"),
         }
     }
     pub fn class(&self) -> &'static str {
@@ -37,6 +41,7 @@ impl Action {
             Action::TruncateHalf => "truncate-half",
             Action::Garbage => "garbage",
             Action::BitFlip(_) => "bitflip",
+            Action::JsonFlip(_) => "jsonflip",
         }
     }
 }
@@ -71,6 +76,32 @@ pub fn apply(root: &Path, d: &Damage, seed: u64) {
         Action::Garbage => {
             let n = std::fs::metadata(&p).map(|m| m.len()).unwrap_or(16).max(8) as usize;
             std::fs::write(&p, rng.bytes(n)).unwrap();
+        }
+        Action::JsonFlip(i) => {
+            let raw = std::fs::read(&p).unwrap();
+            let is_hunk = path_class(&d.relpath) == "hunk";
+            let plain = if is_hunk { fmt06::snappy_decompress(&raw).unwrap_or_default() } else { raw.clone() };
+            let mut r = Rng::for_case(seed ^ (*i).wrapping_mul(7919), crate::rng::fnv(d.relpath.as_bytes()), 79);
+            // positions inside values: digits, and bytes of strings
+            let cands: Vec<usize> = plain
+                .iter()
+                .enumerate()
+                .filter(|(_, b)| b.is_ascii_digit() || b.is_ascii_alphabetic() || **b == b'/' || **b == b'-')
+                .map(|(i, _)| i)
+                .collect();
+            if !cands.is_empty() {
+                for _ in 0..200 {
+                    let pos = *r.pick(&cands);
+                    let bit = 1u8 << r.below(8);
+                    let mut m = plain.clone();
+                    m[pos] ^= bit;
+                    if m != plain && serde_json::from_slice::<serde_json::Value>(&m).is_ok() {
+                        let out = if is_hunk { fmt06::snappy_compress(&m) } else { m };
+                        std::fs::write(&p, out).unwrap();
+                        break;
+                    }
+                }
+            }
         }
         Action::BitFlip(i) => {
             let mut b = std::fs::read(&p).unwrap();
@@ -116,6 +147,17 @@ pub fn build_subject(seed: u64, case: u64, tag: &str) -> Subject {
     p.owners = false;
     let mut w = World::new(tag, &mut rng, p, seed ^ (case << 11));
     let mut desc = Vec::new();
+    // several small files that end up sharing one combined block
+    {
+        let old = w.spec.clone();
+        for i in 0..4usize {
+            let mut n = crate::tree::Node::file(crate::tree::gen_content(&mut rng, (opts.cap as usize).saturating_sub(1 + i % 3).max(2)));
+            (n.mtime_s, n.mtime_ns) = w.clock.next(&mut rng);
+            w.spec.insert(format!("/zs{i}"), n);
+        }
+        crate::tree::sync_to_disk(Some(&old), &w.spec, &w.src).expect("sync");
+        w.snap = crate::tree::snapshot(&w.src).expect("snapshot");
+    }
     let r = w.backup(opts);
     assert!(r.backup.as_ref().unwrap().ok());
     desc.push(r.desc);
@@ -240,8 +282,15 @@ pub fn all_damages(root: &Path, bitflips_for_all: bool, n_flips: u64) -> Vec<Dam
             v.push(Damage { relpath: f.clone(), action: a });
         }
         if pc == "block" || bitflips_for_all {
-            for i in 0..n_flips {
+            // content lives in blocks: more flips there
+            let n = if pc == "block" { n_flips.max(6) } else { n_flips };
+            for i in 0..n {
                 v.push(Damage { relpath: f.clone(), action: Action::BitFlip(i) });
+            }
+        }
+        if bitflips_for_all && matches!(pc, "hunk" | "BANDHEAD" | "BANDTAIL") {
+            for i in 0..(n_flips * 4) {
+                v.push(Damage { relpath: f.clone(), action: Action::JsonFlip(i) });
             }
         }
     }
